@@ -188,6 +188,10 @@ def restore_programs():
     dr = {'tag': 'p', 'indent': 2, 'define': [['local', 'x', py("rec('d', dv)")]], 'repeat': ['x', py("rec('r', seq)")],
           'children': [probe('x', 'in')]}
     yield [dr, probe('x', 'after')], [['dv', 'int', 5], ['seq', 'lenN', 1], ['x', 'maybe3', 0]], 'restore:define+repeat'
+    # the same multi-name target on nested elements and on define + repeat of one element
+    inner = {'tag': 'q', 'indent': 4, 'repeat': [['x', 'y'], py('pairs')], 'children': [probe('x', 'in2')]}
+    outer = {'tag': 'p', 'indent': 2, 'repeat': [['x', 'y'], py('pairs')], 'children': [probe('x', 'in'), inner, probe('y', 'in3')]}
+    yield [outer, probe('x', 'after'), probe('y', 'after')], [['pairs', 'iter:pairs', 1], ['x', 'maybe3', 0]], 'restore:tuple-nested'
     c = {'tag': 'p', 'indent': 2, 'define': [['local', 'd', py("rec('d', dv)")]], 'condition': py("rec('c', cv)"),
          'children': [probe('d', 'in')]}
     yield [c, probe('d', 'after')], [['dv', 'int', 5], ['cv', 'bool', 0], ['d', 'maybe3', 0]], 'restore:define+condition'
